@@ -902,7 +902,10 @@ func (rn *c13Runner) step(when string, i int, op c13Op) *vlib.Failure {
 		}
 		root := -1
 		for _, i := range fresh {
-			o := tree.objPool[i]
+			o := tree.ObjectAt(uint32(i))
+			if o == nil {
+				return vlib.Failf("%s: ObjectAt(%d) is nil for a slot CreateDefaultScopes just filled", when, i)
+			}
 			m.nodes[i] = c13Node{live: true, named: true, name: o.name, opcode: o.opcode, handle: o.tableHandle, parent: -1, ptr: o}
 			if o.name == [amlNameLen]byte{'\\'} {
 				root = i
